@@ -18,7 +18,8 @@ Observation lines (per cycle, in this order)
   29 t op code               the write threw (2 = "duplicate modification")
   21 node t                  consumer node evaluated in this cycle
   25 node t                  late consumer bound itself          26 who t   consumer still unbound
-  20 who t plen path... valid modified lmt value delta_readable delta     who 0 = producer view, k = consumer k
+  20 who t plen path... valid modified lmt value delta_readable delta [count]     who 0 = producer view, k = consumer k
+       count (producer lines only): observers.notify calls seen so far by a counting observer on that node (-1 below a TSD)
        delta: TS the delta value; TSB/TSL bit mask of the children in the delta; TSD -1; -2 sampled whole value
   24 who t plen path... keys...   live keys of a TSD node (sorted)
 """
@@ -412,7 +413,7 @@ def oracle(prop, case, out):
     seen_cycles = sorted({l[2] for l in out if l and l[0] == 20 and l[1] == 0})
     if seen_cycles != list(range(start, end)):
         fails.append(("cycle_missing", "reporter did not observe every cycle: %s" % seen_cycles[:20]))
-    link = {}       # consumer -> last time its target was touched or invalidated while bound (for classification only)
+    prev_counts = {}
     for t in range(start, end):
         ls = lines_by_t.get(t, [])
         threw = [l for l in ls if l[0] == 29]
@@ -428,13 +429,15 @@ def oracle(prop, case, out):
                 for n in range(len(p)):
                     child_inv_now.add(p[:n])
         prod = {}
+        counts = {}
         for l in ls:
             if l[0] == 20:
                 who, pl = l[1], l[3]
                 p = tuple(l[4:4 + pl])
                 vals = l[4 + pl:]
                 if who == 0:
-                    prod[p] = vals
+                    prod[p] = vals[:6]
+                    counts[p] = vals[6] if len(vals) > 6 else -1
         # (1)-(4): the four biconditionals on the producer view
         for p, exp_l in spec.lmt.items():
             if p not in prod:
@@ -464,6 +467,16 @@ def oracle(prop, case, out):
                         fails.append(("delta_children", "t=%d ep=%s delta holds children mask %d, modified children mask %d" % (t, list(p), dv, expm)))
             elif s == 0 and rd and exp_l == t and dv != val:
                 fails.append(("delta_value", "t=%d ep=%s delta %d != value %d" % (t, list(p), dv, val)))
+        # observers are notified once per cycle in which the endpoint is written (cycles without an
+        # invalidation: invalidate notifies on its own account)
+        inv_cycle = any(op == 2 for (op, _, _) in by_t.get(t, []))
+        for p, cnt in counts.items():
+            if cnt >= 0 and p in spec.lmt:
+                before = prev_counts.get(p, 0)
+                if not inv_cycle and cnt - before != int(spec.lmt[p] == t):
+                    fails.append(("notify_count", "t=%d ep=%s observers notified %d times, written in this cycle: %s"
+                                  % (t, list(p), cnt - before, spec.lmt[p] == t)))
+        prev_counts = counts
         for p in prod:
             if p not in spec.lmt:
                 fails.append(("endpoint_extra", "t=%d producer reports endpoint %s that the write log does not have" % (t, list(p))))
@@ -518,7 +531,7 @@ PROP_KINDS = {
             "parent_without_child", "child_without_parent", "endpoint_missing", "endpoint_extra",
             "consumer_disagrees_valid", "consumer_disagrees_modified", "consumer_disagrees_lmt", "consumer_disagrees_value",
             "consumer_disagrees_delta_readable", "consumer_disagrees_delta",
-            "not_notified", "spurious_notify", "cycle_missing", "write_throws", "harness_error"},
+            "not_notified", "spurious_notify", "notify_count", "cycle_missing", "write_throws", "harness_error"},
 }
 
 
